@@ -405,6 +405,147 @@ fn api_docs(rep: &mut Report) {
     rep.absorb("U-api", "5 base documents x every 3-step history over {noop, auto-vivify, assign, insert array of tables, remove+make_value+reinsert, vacate first array / array-of-tables slot, insert empty containers, vacate table entry, probe a key and insert others after the placeholder}", total, true, t0, acc);
 }
 
+/// deep (and optionally wide) API-built chains of containers: documents no parser would accept (beyond the recursion
+/// limit) but that the construction API builds freely; the visitors must still reach every node exactly once, and
+/// a later walk over a small document on the same thread must be unaffected by the deep one
+fn deep_chain(kind: usize, depth: usize, width: usize) -> DocumentMut {
+    let mut doc = DocumentMut::new();
+    match kind {
+        0 | 1 | 2 => {
+            // value chains: arrays, inline tables, alternating
+            let mut v: Value = Value::from(1);
+            for level in 0..depth {
+                let as_array = match kind {
+                    0 => true,
+                    1 => false,
+                    _ => level % 2 == 0,
+                };
+                if as_array {
+                    let mut a = Array::new();
+                    for _ in 1..width {
+                        a.push(1);
+                    }
+                    a.push(v);
+                    v = Value::Array(a);
+                } else {
+                    let mut t = InlineTable::new();
+                    for w in 1..width {
+                        t.insert(format!("x{}", w), Value::from(1));
+                    }
+                    t.insert("k", v);
+                    v = Value::InlineTable(t);
+                }
+            }
+            doc.insert("a", Item::Value(v));
+        }
+        _ => {
+            // item chains: standard tables, tables alternating with arrays of tables
+            let mut t = Table::new();
+            t.insert("x", toml_edit::value(1));
+            for level in 0..depth {
+                let mut outer = Table::new();
+                for w in 0..width {
+                    outer.insert(&format!("x{}", w), toml_edit::value(1));
+                }
+                if kind == 4 && level % 2 == 0 {
+                    let mut a = ArrayOfTables::new();
+                    if width > 1 {
+                        let mut sib = Table::new();
+                        sib.insert("y", toml_edit::value(1));
+                        a.push(sib);
+                    }
+                    a.push(t);
+                    outer.insert("u", Item::ArrayOfTables(a));
+                } else {
+                    outer.insert("t", Item::Table(t));
+                }
+                t = outer;
+            }
+            doc.insert("r", Item::Table(t));
+        }
+    }
+    doc
+}
+
+fn count_ints(evs: &[Ev], want: &str) -> (usize, usize) {
+    let all = evs.iter().filter(|e| e.0 == "integer").count();
+    let hit = evs.iter().filter(|e| e.0 == "integer" && e.2 == want).count();
+    (all, hit)
+}
+
+fn deep_docs(rep: &mut Report, tier: Tier) {
+    let t0 = std::time::Instant::now();
+    let mut depths: Vec<usize> = (1..=tier.pick(140, 300)).collect();
+    depths.extend([320, 500, 512, 513, 1000, 1024, 1025]);
+    if tier == Tier::Thorough {
+        depths.extend([2000, 4096, 4097]);
+    }
+    let small: DocumentMut = "a = 1\nb = [2, {c = 3}]\n[t]\nx = 4\n[[u]]\ny = 5\n".parse().unwrap();
+    let mut cases = Vec::new();
+    for kind in 0..5usize {
+        for &d in &depths {
+            for width in [1usize, 3] {
+                cases.push((kind, d, width));
+            }
+        }
+    }
+    // one big-stack thread per kind: the walks are recursive by contract (so is the reference walk), the property is about
+    // which nodes are reached, not about stack use (C05's business)
+    let handles: Vec<_> = (0..5usize)
+        .map(|kind| {
+            let cases: Vec<_> = cases.iter().copied().filter(|c| c.0 == kind).collect();
+            let small = small.clone();
+            std::thread::Builder::new()
+                .stack_size(2 << 30)
+                .spawn(move || {
+                    let mut acc = Acc::default();
+                    for (kind, d, width) in cases {
+                        acc.evals += 1;
+                        let label = format!("API-built chain kind {} ({}) depth {} width {}", kind, ["arrays", "inline tables", "arrays / inline tables alternating", "standard tables", "arrays of tables / tables alternating"][kind], d, width);
+                        let r = guarded(|| -> Result<(), String> {
+                            let doc = deep_chain(kind, d, width);
+                            check_doc(&doc)?;
+                            // rewriting visitor: every integer (all are 1) becomes 2, nothing else changes
+                            let mut d3 = doc.clone();
+                            Inc.visit_document_mut(&mut d3);
+                            let mut before = Vec::new();
+                            walk_table(doc.as_table(), &mut before);
+                            let mut after = Vec::new();
+                            walk_table(d3.as_table(), &mut after);
+                            let (n0, ones) = count_ints(&before, "1");
+                            let (n1, twos) = count_ints(&after, "2");
+                            if n0 != ones || n1 != n0 || twos != n0 || before.len() != after.len() {
+                                return Err(format!("integer-rewriting visitor: {} integers before, {} after, {} of them rewritten", n0, n1, twos));
+                            }
+                            // a later walk over a small document on this thread
+                            check_doc(&small).map_err(|e| format!("a small document walked AFTER the deep one: {}", e))?;
+                            Ok(())
+                        });
+                        match r {
+                            Ok(Ok(())) => {
+                                acc.nontrivial(label.as_bytes());
+                                acc.bump("deep-visited-ok");
+                            }
+                            Ok(Err(e)) => acc.viol("U-deep", label, None, e),
+                            Err(p) => acc.viol("U-deep", label, None, format!("panic: {}", p)),
+                        }
+                    }
+                    acc
+                })
+                .expect("spawn")
+        })
+        .collect();
+    let mut acc = Acc::default();
+    for h in handles {
+        match h.join() {
+            Ok(a) => acc = acc.merge(a),
+            Err(_) => acc.viol("U-deep", "deep chain worker".into(), None, "worker thread died".into()),
+        }
+    }
+    let total = cases.len() as u64;
+    rep.absorb("U-deep", &format!("API-built chains of 5 container kinds x depths 1..{} + 320..1025{} x widths 1 / 3; each followed by a walk over a small document on the same thread", tier.pick(140, 300), if tier == Tier::Thorough { " + 2000..4097" } else { "" }), total, true, t0, acc);
+}
+
 pub fn c20(tier: Tier) -> i32 {
     let mut rep = Report::new(
         "C20",
@@ -415,6 +556,7 @@ pub fn c20(tier: Tier) -> i32 {
     rep.assumptions = vec!["document order = the order of the public iterators (IndexMap order), which is what the visitor documentation promises".into()];
     docu::run(&mut rep, tier, &["decor", "stmt", "tok", "corpus", "ctx", "reopen"], &c20_eval);
     api_docs(&mut rep);
+    deep_docs(&mut rep, tier);
     rep.finish()
 }
 
